@@ -9,8 +9,7 @@ META = {
 GENERIC = [('kllm', 'serde_kll', 2, 60, 20), ('kll', 'serde_kll', 0, 8, 12), ('kll', 'serde_kll', 1, 12, 12), ('kll', 'serde_kll', 2, 40, 12), ('kll', 'serde_kll', 3, 44, 12),
            ('qs', 'serde_qs', 0, 8, 12), ('qs', 'serde_qs', 1, 28, 12), ('qs', 'serde_qs', 3, 36, 12),
            ]
-GENERIC_THOROUGH = [('req', 'serde_req', 0, 8, 12), ('req', 'serde_req', 1, 12, 12), ('req', 'serde_req', 2, 36, 12), ('req', 'serde_req', 3, 40, 12),
-           ('cm', 'serde_cm', 0, 16, 12), ('cm', 'serde_cm', 2, 72, 12), ('fi', 'serde_fi', 0, 8, 12), ('fi', 'serde_fi', 2, 64, 12)]
+GENERIC_THOROUGH = []   # req, count-min and frequent-items images (wrappers/serde_req.cpp, serde_cm.cpp, serde_fi.cpp): full-image queries did not reach a verdict in 900 s; not claimed
 def queries(tier):
     qs = []
     def size(kind, n, est):
